@@ -314,3 +314,32 @@ def well_formed(T, v):
         name, inner = v
         return any(a['name'] == name and well_formed(a['t'], inner) for a in T['alts'])
     return True
+
+
+def by_neutralising_all(run_case, rules, subs=None, kinds=None, others=()):
+    """rules: [(finding id, feature(T, v), transform(T, v))].  -> {finding id: predicate}.
+    A failure is attributed to a rule's finding when the case has that rule's feature and the failing (sub, kind)
+    disappears - or is explained by one of `others` - once the features of ALL rules are removed together
+    (several listed defects often meet in one generated case)."""
+    def make(fid, feature):
+        def pred(failure):
+            if subs is not None and failure['sub'] not in subs:
+                return False
+            if kinds is not None and failure['kind'] not in kinds:
+                return False
+            case = case_of(failure)
+            T, v = case['T'], case['v']
+            if not feature(T, v):
+                return False
+            for _fid, feat, transform in rules:
+                if feat(T, v):
+                    T, v = transform(T, v)
+            c2 = dict(case, T=T, v=v)
+            for f in run_case(c2):
+                if f['sub'] == failure['sub'] and f['kind'] == failure['kind']:
+                    f2 = dict(f, case=ir.to_jsonable(c2), obs=ir.to_jsonable(f.get('obs')))
+                    if not any(o(f2) for o in others):
+                        return False
+            return True
+        return pred
+    return {fid: make(fid, feature) for fid, feature, _t in rules}
